@@ -293,12 +293,13 @@ def returns_of(block: tuple) -> list[tuple[S, S]]:
     return out
 
 
-def paths(block: tuple, env: Optional[dict] = None, limit: int = 4096) -> list[tuple[tuple, S]]:
+def paths(block: tuple, env: Optional[dict] = None, limit: int = 4096, fall: S = ("fall",)) -> list[tuple[tuple, S]]:
     """Path-sensitive tabulation of a loop-free canonical block: list of
     (tuple of branch literals in order, outcome) where outcome is the folded return
     value, ('raise', exc) or ('fall',).  Assignments to variables update a symbolic
     environment (variable S-id -> value S) that is substituted into later conditions
-    and values; loops are opaque (their assigned variables are forgotten)."""
+    and values; loops are opaque (their assigned variables are forgotten).  For a whole function body pass
+    fall=K_NONE: falling off the end returns None."""
     out: list[tuple[tuple, S]] = []
 
     def sub(x: S, e: dict) -> S:
@@ -343,7 +344,58 @@ def paths(block: tuple, env: Optional[dict] = None, limit: int = 4096) -> list[t
                 for t in _assigned_in(st):
                     e.pop(t, None)
             i += 1
-        out.append((lits, ("fall",)))
+        out.append((lits, fall))
 
     walk(block, 0, (), dict(env or {}))
     return out
+
+
+# ------------------------------------------------------------------ the value of a guard chain as one expression
+_BOOLISH = ("lt0", "not", "and", "or", "eq0", "ne0", "cmp")
+
+
+def _is_boolean(s: S) -> bool:
+    return s in (K_TRUE, K_FALSE) or (isinstance(s, tuple) and bool(s) and s[0] in _BOOLISH)
+
+
+def value_expr(block: tuple) -> Optional[S]:
+    """The value returned by a block made of conditionals and returns only (after dereferencing its locals), as one
+    expression: ``if c: return a`` ; ``return b``  ->  ite(c, a, b), whatever the arrangement of guards and else
+    branches.  Boolean-valued results are folded into and/or.  None when the block has any other statement or a path
+    without a return."""
+    def v(stmts: tuple) -> Optional[S]:
+        if not stmts:
+            return None
+        st = stmts[0]
+        rest = tuple(stmts[1:])
+        if st[0] == "ret":
+            return st[1]
+        if st[0] == "if" and len(st) == 4:
+            a = v(tuple(st[2]) + rest)
+            b = v(tuple(st[3]) + rest)
+            if a is None or b is None:
+                return None
+            return _ite(st[1], a, b)
+        if st[0] == "assert":
+            return v(rest)
+        return None
+
+    def _ite(c: S, a: S, b: S) -> S:
+        if a == b:
+            return a
+        if _is_boolean(a) and _is_boolean(b):
+            if a == K_FALSE:
+                return mk_and([mk_not(c), b])
+            if a == K_TRUE:
+                return mk_or([c, b])
+            if b == K_FALSE:
+                return mk_and([c, a])
+            if b == K_TRUE:
+                return mk_or([mk_not(c), a])
+        # ite(c1, ite(c2, x, y), y) == ite(c1 and c2, x, y)
+        if isinstance(a, tuple) and a and a[0] == "ite" and a[3] == b:
+            return mk_ite(mk_and([c, a[1]]), a[2], b)
+        if isinstance(b, tuple) and b and b[0] == "ite" and b[2] == a:
+            return mk_ite(mk_or([c, b[1]]), a, b[3])
+        return mk_ite(c, a, b)
+    return v(tuple(block))
